@@ -34,6 +34,9 @@ CONFIGS = [
     {"methodConfig": [{"name": [N("Other", "Alpha")], "timeout": "3s", "retryPolicy": RP2}]},                                      # same method name, other service
     {"methodConfig": [{"name": [N("Lab", "Alpha")], "retryPolicy": dict(RP1, retryableStatusCodes=ALL)}]},
     {"methodConfig": []},
+    # one entry naming methods of two services (Lab.Alpha, Other.Beta): Lab.Beta and Other.Alpha are named by nobody / by a later entry only
+    {"methodConfig": [{"name": [N("Lab", "Alpha"), N("Other", "Beta")], "timeout": "12s", "retryPolicy": RP1}, {"name": [N("Other", "Alpha")], "timeout": "4s"}]},
+    {"methodConfig": [{"name": [N("Lab", "Gamma"), N("Other", "Delta")], "timeout": "6s"}, {"name": [N("Lab", "Delta")], "timeout": "8s", "retryPolicy": RP2}]},
 ]
 
 
@@ -101,6 +104,8 @@ def scenarios():
     from vf.genlab import run_isolated
     failures += run_isolated("props.C09_native", "rest_deadlines")
     cases += 6
+    failures += run_isolated("props.C09_native", "call_deadlines")
+    cases += 10
     return {"cases": cases, "failures": failures}
 
 
@@ -149,6 +154,46 @@ def rest_deadlines():
             got = seen[0][2] if seen else "nothing sent"
             if got != want:
                 failures.append({"transport": "rest", "call": f"{pyname}({kwargs})", "what": "timeout of the HTTP request", "got": got, "want": want})
+    return failures
+
+
+def call_deadlines():
+    """Calls through the generated sync and asyncio clients: without an explicit timeout the stub is invoked with the entry's timeout, with one it is
+    invoked with the caller's, and a method the configuration does not name carries none."""
+    import asyncio, importlib
+    from vf import genlab as G
+    from google.auth.credentials import AnonymousCredentials
+    cfg = {"methodConfig": [{"name": [N("Lab", "Alpha")], "timeout": "30s"},
+                            {"name": [N("Lab", "Gamma")], "timeout": "12s", "retryPolicy": RP2}]}
+    api, res = G.generate(files(), "autogen-snippets=false", retry_config=cfg)
+    failures = []
+    with G.materialised(res):
+        lab_v1 = importlib.import_module("acme.lab_v1")
+        from acme.lab_v1.services.lab.transports import LabGrpcTransport, LabGrpcAsyncIOTransport
+        seen = []
+
+        def handler(kind, path, raw, md, deser, timeout):
+            seen.append((path.rsplit("/", 1)[1], timeout))
+            return deser(lab_v1.Resp.serialize(lab_v1.Resp(x="ok")))
+        client = lab_v1.LabClient(transport=LabGrpcTransport(channel=G.fake_channel(handler), credentials=AnonymousCredentials()))
+        aclient = lab_v1.LabAsyncClient(transport=LabGrpcAsyncIOTransport(channel=G.fake_aio_channel(handler), credentials=AnonymousCredentials()))
+
+        async def _aw(c):
+            return await c
+        for which, cl in (("sync", client), ("async", aclient)):
+            for pyname, kwargs, want in (("alpha", {}, 30.0), ("alpha", {"timeout": 4.5}, 4.5), ("beta", {}, None), ("beta", {"timeout": 2.0}, 2.0), ("gamma", {}, 12.0)):
+                del seen[:]
+                try:
+                    r = getattr(cl, pyname)(request={"name": f"lab/{pyname}/1"}, **kwargs)
+                    if which == "async":
+                        asyncio.run(_aw(r))
+                except Exception as e:      # noqa
+                    failures.append({"client": which, "call": f"{pyname}({kwargs})", "error": repr(e)[:200]})
+                    continue
+                got = seen[0][1] if seen else "nothing sent"
+                ok = (got is None) if want is None else (isinstance(got, (int, float)) and abs(got - want) < 0.5 and got <= want)
+                if not ok:
+                    failures.append({"client": which, "call": f"{pyname}({kwargs})", "what": "deadline of the call on the channel", "got": got, "want": want})
     return failures
 
 
